@@ -36,6 +36,7 @@ typedef VP_REAL T;
 #define VP_CALL_MAY_THROW(call) do { call; if (vp_thrown) return; } while (0)
 /* the repository's own assert(c) becomes an obligation */
 #define VP_REPO_ASSERT(c) __CPROVER_assert((c), "assert() in the repository holds")
+#define VP_INFINITY ((T)(1.0 / 0.0))
 #define VP_SZ_MAX 18446744073709551615UL
 #define VP_ISNAN(a) ((a) != (a))
 #define VP_ISINF(a) (!VP_ISNAN(a) && VP_ISNAN((a) - (a)))
